@@ -82,7 +82,8 @@ def pipelineOp (j : Json) : Except String Json := do
   let r ← field j "right" >>= imgInfoOfJson
   let m ← cstateOfJson (fieldD j "state" (mkObj []))
   let o ← oracleOf j
-  let res := checkPipelineSection o reg user l r m
+  let fl ← flagsOfJson (fieldD j "flags" (mkObj []))
+  let res := checkPipelineSection o fl reg user l r m
   let verdict :=
     match Dict.lookup user "pipeline" with
     | none => Dom.accept
@@ -112,7 +113,8 @@ def checkConfOp (j : Json) : Except String Json := do
   let files ← field j "files" >>= filesOfJson
   let user ← field j "user" >>= dictOfJson
   let m ← cstateOfJson (fieldD j "state" (mkObj []))
-  let res := checkConf files sch reg user m
+  let fl ← flagsOfJson (fieldD j "flags" (mkObj []))
+  let res := checkConf files sch fl reg user m
   return mkObj [
     ("res", resToJson (fun (x : Dict × CState) =>
         mkObj [("cfg", jvalToJson (.obj x.1)), ("state", cstateToJson x.2)]) res)]
